@@ -36,13 +36,30 @@ def load_contracts():
         importlib.import_module("contracts." + m.name)
 
 
+class _Watchdog(Exception):
+    pass
+
+
+def _alarm(sec):
+    import signal
+
+    def h(sig, frm):
+        raise _Watchdog(f"watchdog: no result after {sec}s")
+
+    signal.signal(signal.SIGALRM, h)
+    signal.alarm(sec)
+
+
 def _run_one(args):
     name, timeout_ms = args
     load_contracts()
     t0 = time.time()
+    _alarm(600 if timeout_ms <= 10000 else 3600)
     try:
         r = run_unit(UNITS[name], timeout_ms=timeout_ms)
         return name, r.to_json()
+    except _Watchdog as e:
+        return name, {"unit": name, "status": "unsupported", "message": str(e), "sites": {}, "paths": 0, "time_s": time.time() - t0, "functions": {}, "props": UNITS[name].props}
     except BaseException as e:  # noqa
         return name, {"unit": name, "status": "error", "message": f"{type(e).__name__}: {e}\n{traceback.format_exc()[-1200:]}", "sites": {}, "paths": 0, "time_s": time.time() - t0, "functions": {}, "props": UNITS[name].props}
 
@@ -53,6 +70,7 @@ def _run_native(args):
     from pyvc import native
 
     t0 = time.time()
+    _alarm(600 if tier == "quick" else 3600)
     try:
         fn = native.NATIVE.get(name)
         if fn is None:
@@ -60,6 +78,8 @@ def _run_native(args):
         out = fn(tier=tier, seed=seed)
         out["time_s"] = round(time.time() - t0, 2)
         return name, out
+    except _Watchdog as e:
+        return name, {"status": "timeout", "message": str(e), "cases": 0, "failures": [], "time_s": round(time.time() - t0, 2)}
     except BaseException as e:  # noqa
         return name, {"status": "error", "message": f"{type(e).__name__}: {e}\n{traceback.format_exc()[-1500:]}", "cases": 0, "failures": [], "time_s": round(time.time() - t0, 2)}
 
@@ -127,6 +147,8 @@ def main(argv=None):
         elif r["status"] == "unsupported":
             undecided.append((n, "unsupported: " + r["message"]))
         for site, d in r["sites"].items():
+            if d.get("props") is not None and prop not in d["props"]:
+                continue  # obligation of a shared unit that serves other properties only
             solver_time += d["time_s"]
             backends.update(d["backends"])
             full = f"{n}::{site}"
@@ -166,6 +188,8 @@ def main(argv=None):
         bounded[n] = {k: out.get(k) for k in ("status", "cases", "bound", "time_s", "message")}
         if out["status"] == "error":
             errors.append((f"native:{n}", out.get("message", "")))
+        if out["status"] == "timeout":
+            undecided.append((f"native:{n}", out.get("message", "")))
         for fl in out.get("failures", []):
             kf = next((f for f in open_findings if f.get("obligation") == f"native:{n}::{fl.get('label')}"), None)
             if kf is not None:
